@@ -255,15 +255,25 @@ func (v *VerifC08Ctl) storeAndHandlers(kind string) (cache.Store, cache.Resource
 // obj == nil deletes the object stored under key.  It returns how many tasks the real handler queued
 // (0 = the handler dropped the event) after running the real sync on each of them.
 func (v *VerifC08Ctl) Apply(kind, key string, obj interface{}) (int, error) {
+	if err := v.Deliver(kind, key, obj); err != nil {
+		return 0, err
+	}
+	return v.Drain(), nil
+}
+
+// Deliver only plays the informer (store + real handler): the task, if the handler queues one, stays in the
+// work queue.  Several Deliver calls followed by one Drain give the worker a BATCH, as after a burst of
+// events or a resync.
+func (v *VerifC08Ctl) Deliver(kind, key string, obj interface{}) error {
 	s, h, ok := v.storeAndHandlers(kind)
 	if !ok {
-		return 0, fmt.Errorf("kind %q is not watched in this configuration", kind)
+		return fmt.Errorf("kind %q is not watched in this configuration", kind)
 	}
 	old, existed, _ := s.GetByKey(key)
 	switch {
 	case obj != nil:
 		if err := s.Add(obj); err != nil {
-			return 0, err
+			return err
 		}
 		if existed {
 			h.UpdateFunc(old, obj)
@@ -272,12 +282,17 @@ func (v *VerifC08Ctl) Apply(kind, key string, obj interface{}) (int, error) {
 		}
 	case existed:
 		if err := s.Delete(old); err != nil {
-			return 0, err
+			return err
 		}
 		h.DeleteFunc(old)
-	default:
-		return 0, nil
 	}
+	return nil
+}
+
+// Drain is the loop of taskQueue.worker on the real queue: Get, the real lbc.sync, Done, until the queue is
+// empty.  With more than two tasks queued the real batch bookkeeping of sync (reloads held back, one reload
+// at the end of the batch if enableBatchReload) is what runs.  It returns the number of tasks synced.
+func (v *VerifC08Ctl) Drain() int {
 	q := v.lbc.syncQueue.queue
 	n := 0
 	for q.Len() > 0 && n < 50 {
@@ -286,7 +301,7 @@ func (v *VerifC08Ctl) Apply(kind, key string, obj interface{}) (int, error) {
 		q.Done(it)
 		n++
 	}
-	return n, nil
+	return n
 }
 
 // CurrentVS builds, from the controller's state NOW, what a fresh rendering of the VirtualServer
